@@ -1,7 +1,7 @@
 (* Properties_C06.v -- C06: success means the exact, complete result
    Only theorem statements, each closed by [exact <lemma>], with Print Assumptions beneath. *)
 From Coq Require Import List ZArith Lia Bool.
-From SC Require Import Base Wp Cfg Comb CombProofs CopySpec ModStr ModMem ProofsStr ProofsMem SpecStr SpecMem PropStr FnProps PropDefs.
+From SC Require Import Base Wp Cfg Comb CombProofs CopySpec ModStr ModMem ModExt ProofsStr ProofsMem SpecStr SpecMem SpecExt PropStr FnProps PropDefs.
 From SC.Gen Require Import Consts.
 Import ListNotations.
 Local Open Scope Z_scope.
@@ -66,6 +66,16 @@ Print Assumptions C06_memzero16_s.
 Theorem C06_memzero32_s : forall c d len destbos m, d <> 0 -> 1 <= len * 4 -> ((destbos = BOS_UNKNOWN /\ len * 4 <= rmax_mem c) \/ (destbos <> BOS_UNKNOWN /\ len * 4 <= destbos)) -> wp (memzero32_s c d len destbos) m (fun r m' => r = EOK /\ forall a, m' a = if in_range d (len * 4) a then 0 else m a).
 Proof. intros c d len destbos m. exact (memzerow_s_spec c 4 d len destbos m). Qed.
 Print Assumptions C06_memzero32_s.
+(* round 3: pointer-returning copy and in-place case conversion *)
+Theorem C06_stpcpy_s : forall c d dmax s errp m L, wf_mem m -> d <> 0 -> s <> 0 -> errp <> 0 -> 1 <= dmax <= rmax_str c -> 0 <= L < dmax -> (forall i, 0 <= i < L -> m (s + i) <> 0) -> m (s + L) = 0 -> (s + L < d \/ d + dmax <= s) -> (errp + 4 <= d \/ d + dmax <= errp) -> wp (stpcpy_s c d dmax s errp BOS_UNKNOWN BOS_UNKNOWN) m (fun r m' => r = d + L /\ load m' 4 errp = 0 /\ (forall i, 0 <= i <= L -> m' (d + i) = m (s + i)) /\ (null_slack c = true -> forall a, d + L < a < d + dmax -> m' a = 0) /\ (forall a, ~ (d <= a < d + dmax) -> ~ (errp <= a < errp + 4) -> m' a = m a)).
+Proof. exact stpcpy_s_spec. Qed.
+Print Assumptions C06_stpcpy_s.
+Theorem C06_strtolowercase_s : forall c d dmax m, d <> 0 -> 1 <= dmax <= rmax_str c -> wp (strtolowercase_s c d dmax BOS_UNKNOWN) m (fun r m' => r = EOK /\ exists t, 0 <= t <= dmax /\ (forall i, 0 <= i < t -> m (d + i) <> 0) /\ (t < dmax -> m (d + t) = 0) /\ forall a, m' a = if (d <=? a) && (a <? d + t) then conv 65 90 32 (m a) else m a).
+Proof. exact strtolowercase_s_spec. Qed.
+Print Assumptions C06_strtolowercase_s.
+Theorem C06_strtouppercase_s : forall c d dmax m, d <> 0 -> 1 <= dmax <= rmax_str c -> wp (strtouppercase_s c d dmax BOS_UNKNOWN) m (fun r m' => r = EOK /\ exists t, 0 <= t <= dmax /\ (forall i, 0 <= i < t -> m (d + i) <> 0) /\ (t < dmax -> m (d + t) = 0) /\ forall a, m' a = if (d <=? a) && (a <? d + t) then conv 97 122 (-32) (m a) else m a).
+Proof. exact strtouppercase_s_spec. Qed.
+Print Assumptions C06_strtouppercase_s.
 
 Theorem C06_cfg_repo_wf : wf_cfg cfg_repo.
 Proof. exact wf_cfg_repo. Qed.
